@@ -80,6 +80,9 @@ pub fn run(fams: &[&str], seed: u64, n: usize) {
             "rpll" => fam_rpll(&mut rng, n, &mut out),
             "sweep" => fam_sweep(&mut rng, n, &mut out),
             "hbf" => fam_hbf(&mut rng, n, &mut out),
+            "fbiquad" => fam_fbiquad(&mut rng, n, &mut out),
+            "coeff" => fam_coeff(&mut rng, n, &mut out),
+            "pid" => fam_pid(&mut rng, n, &mut out),
             _ => panic!("unknown family {}", f),
         }
     }
@@ -1163,4 +1166,184 @@ fn fam_hbf(rng: &mut Rng, n: usize, out: &mut Out) {
 #[allow(dead_code)]
 fn unused(_: i128) -> i128 {
     wrap(0, 8)
+}
+
+// ------------------------------------------------------------------ float biquad / coefficient builders / PID
+fn rfloat(rng: &mut Rng) -> f64 {
+    match rng.below(6) {
+        0 => 0.0,
+        1 => rng.range(-8, 8) as f64,
+        2 => rng.range(-1000, 1000) as f64 / 128.0,
+        3 => (rng.next() as i64 as f64) / 9.3e18,
+        4 => f64::from_bits(0x3f00_0000_0000_0000 + (rng.next() & 0x00ff_ffff_ffff_ffff)) * if rng.chance(1, 2) { -1.0 } else { 1.0 },
+        _ => rng.range(-100000, 100000) as f64 / 7.0,
+    }
+}
+
+macro_rules! fbq_hist {
+    ($t:ty, $bits:expr, $rng:expr, $len:expr, $out:expr) => {{
+        let rng: &mut Rng = $rng;
+        let out: &mut Out = $out;
+        let style = rng.below(4);
+        let mut ba: [$t; 5] = [rfloat(rng) as $t, rfloat(rng) as $t, rfloat(rng) as $t, rfloat(rng) as $t / 4.0, rfloat(rng) as $t / 8.0];
+        match style {
+            0 => { ba[3] = -1.0; ba[4] = 0.0; }
+            1 => { ba[3] = -2.0; ba[4] = 1.0; }
+            _ => {}
+        }
+        let mut bq = Biquad::<$t>::from(ba);
+        let u = if rng.chance(1, 2) { 0.0 } else { rfloat(rng) as $t };
+        bq.set_u(u);
+        let (mut mn, mut mx) = (<$t>::NEG_INFINITY, <$t>::INFINITY);
+        if rng.chance(2, 3) {
+            mn = rfloat(rng) as $t;
+            mx = rfloat(rng) as $t;
+            if mn > mx { core::mem::swap(&mut mn, &mut mx); }
+        }
+        bq.set_min(mn);
+        bq.set_max(mx);
+        let b = |v: $t| v.to_bits();
+        let cfg = format!("[{},{},{},{},{},{},{},{}]", b(ba[0]), b(ba[1]), b(ba[2]), b(ba[3]), b(ba[4]), b(u), b(mn), b(mx));
+        let constant = rng.chance(1, 2);
+        let xc = rfloat(rng) as $t;
+        match rng.below(3) {
+            0 => {
+                let mut xy: [$t; 4] = [rfloat(rng) as $t, rfloat(rng) as $t, rfloat(rng) as $t, rfloat(rng) as $t];
+                for _ in 0..$len {
+                    let x0 = if constant { xc } else { rfloat(rng) as $t };
+                    let before = xy;
+                    let y = bq.update(&mut xy, x0);
+                    if !y.is_finite() { break; }
+                    out.emit(&format!("f_bq4 {} {} {} {}", $bits, cfg, list(&before.map(b)), b(x0)), Some(format!("{} {}", list(&xy.map(b)), b(y))));
+                }
+            }
+            1 => {
+                let mut xy: [$t; 5] = [rfloat(rng) as $t, rfloat(rng) as $t, rfloat(rng) as $t, rfloat(rng) as $t, rfloat(rng) as $t];
+                for _ in 0..$len {
+                    let x0 = if constant { xc } else { rfloat(rng) as $t };
+                    let before = xy;
+                    let y = bq.update(&mut xy, x0);
+                    if !y.is_finite() { break; }
+                    out.emit(&format!("f_bq5 {} {} {} {}", $bits, cfg, list(&before.map(b)), b(x0)), Some(format!("{} {}", list(&xy.map(b)), b(y))));
+                }
+            }
+            _ => {
+                let mut xy: [$t; 2] = [rfloat(rng) as $t, rfloat(rng) as $t];
+                for _ in 0..$len {
+                    let x0 = if constant { xc } else { rfloat(rng) as $t };
+                    let before = xy;
+                    let y = bq.update(&mut xy, x0);
+                    if !y.is_finite() || !xy[0].is_finite() || !xy[1].is_finite() { break; }
+                    out.emit(&format!("f_bq2 {} {} {} {}", $bits, cfg, list(&before.map(b)), b(x0)), Some(format!("{} {}", list(&xy.map(b)), b(y))));
+                }
+            }
+        }
+    }};
+}
+
+fn fam_fbiquad(rng: &mut Rng, n: usize, out: &mut Out) {
+    let start = out.lines;
+    while out.lines - start < n {
+        let len = 1 + rng.below(30) as usize;
+        if rng.chance(1, 2) {
+            fbq_hist!(f32, 32, rng, len, out);
+        } else {
+            fbq_hist!(f64, 64, rng, len, out);
+        }
+    }
+}
+
+pub fn coeff_params(rng: &mut Rng) -> (f64, idsp::iir::Shape<f64>, i64, f64, f64, f64) {
+    // f0 over 1e-4..0.49 (log), shape 0.1..50 (log), gain +-1e-2..1e2, shelf 1e-2..1e2
+    let lg = |rng: &mut Rng, lo: f64, hi: f64| -> f64 { (lo.ln() + (hi.ln() - lo.ln()) * (rng.below(1 << 20) as f64 / (1 << 20) as f64)).exp() };
+    let f0 = lg(rng, 1e-4, 0.49);
+    let sv = lg(rng, 0.1, 50.0);
+    let sk = rng.below(3) as i64;
+    let shape = match sk { 0 => idsp::iir::Shape::Q(sv), 1 => idsp::iir::Shape::Bandwidth(sv), _ => idsp::iir::Shape::Slope(sv) };
+    let gain = lg(rng, 1e-2, 1e2) * if rng.chance(1, 3) { -1.0 } else { 1.0 };
+    let shelf = lg(rng, 1e-2, 1e2);
+    (f0, shape, sk, sv, gain, shelf)
+}
+
+pub fn coeff_build(f: &idsp::iir::Filter<f64>, typ: u64) -> [[f64; 3]; 2] {
+    match typ {
+        0 => f.lowpass(),
+        1 => f.highpass(),
+        2 => f.bandpass(),
+        3 => f.allpass(),
+        4 => f.notch(),
+        5 => f.peaking(),
+        6 => f.lowshelf(),
+        7 => f.highshelf(),
+        _ => f.iho(),
+    }
+}
+
+fn fam_coeff(rng: &mut Rng, n: usize, out: &mut Out) {
+    for i in 0..n {
+        let (f0, shape, sk, sv, gain, shelf) = coeff_params(rng);
+        let w0 = std::f64::consts::TAU * f0;
+        let typ = rng.below(9);
+        let mut f = idsp::iir::Filter::<f64>::default();
+        f.angular_critical_frequency(w0).gain(gain).shelf(shelf).set_shape(shape);
+        let ba = coeff_build(&f, typ);
+        let flat = [ba[0][0], ba[0][1], ba[0][2], ba[1][0], ba[1][1], ba[1][2]];
+        out.emit(
+            &format!("f_coeff {} {} {} {} {} {}", typ, sk, sv.to_bits(), w0.to_bits(), gain.to_bits(), shelf.to_bits()),
+            Some(list(&flat.map(|v| v.to_bits()))),
+        );
+        if i % 2 == 0 && flat.iter().all(|v| v.is_finite()) {
+            let fb = list(&flat.map(|v| v.to_bits()));
+            match i % 6 {
+                0 => {
+                    let r = guard(|| *Biquad::<i16>::from(&ba).ba());
+                    if let Some(c) = r { out.emit(&format!("f_from_ba 16 14 {}", fb), Some(list(&c))); }
+                }
+                2 => {
+                    let r = guard(|| *Biquad::<i32>::from(&ba).ba());
+                    if let Some(c) = r { out.emit(&format!("f_from_ba 32 30 {}", fb), Some(list(&c))); }
+                }
+                _ => {
+                    let r = guard(|| *Biquad::<i64>::from(&ba).ba());
+                    if let Some(c) = r { out.emit(&format!("f_from_ba 64 62 {}", fb), Some(list(&c))); }
+                }
+            }
+        }
+    }
+}
+
+fn fam_pid(rng: &mut Rng, n: usize, out: &mut Out) {
+    use idsp::iir::{Action, Order, PidBuilder};
+    let acts = [Action::I2, Action::I, Action::P, Action::D, Action::D2];
+    for i in 0..n {
+        let dec = |rng: &mut Rng| -> f64 { 10f64.powi(rng.range(-6, 3) as i32) * (1.0 + rng.below(900) as f64 / 100.0) };
+        let period = 10f64.powi(rng.range(-4, 1) as i32) * (1.0 + rng.below(9) as f64);
+        let order = [Order::P, Order::I, Order::I2][rng.below(3) as usize];
+        let sign = if rng.chance(1, 4) { -1.0 } else { 1.0 };
+        let mut b = PidBuilder::<f64>::default();
+        b.period(period).order(order);
+        let mut gains = [0f64; 5];
+        let mut limits = [f64::INFINITY; 5];
+        for (j, a) in acts.iter().enumerate() {
+            if rng.chance(1, 2) {
+                gains[j] = sign * dec(rng) * if i % 4 == 0 { 1e-3 } else { 1.0 };
+                b.gain(*a, gains[j]);
+            }
+            if rng.chance(1, 3) {
+                limits[j] = sign * dec(rng);
+                b.limit(*a, limits[j]);
+            }
+        }
+        let lhs = |w: u32, q: u32| format!("f_pid {} {} {} {} {} {}", w, q, period.to_bits(), order as usize, list(&gains.map(|v| v.to_bits())), list(&limits.map(|v| v.to_bits())));
+        // integer coefficient types only in the checked profile (an overflowing build must panic there; in release it wraps)
+        match if crate::MODE == 'C' { i % 4 } else { 0 } {
+            0 => {
+                let c: [f64; 5] = b.build();
+                if c.iter().all(|v| v.is_finite()) { out.emit(&lhs(0, 0), Some(list(&c.map(|v| v.to_bits())))); }
+            }
+            1 => { if let Some(c) = guard(|| b.build::<i32>()) { out.emit(&lhs(32, 30), Some(list(&c))); } }
+            2 => { if let Some(c) = guard(|| b.build::<i64>()) { out.emit(&lhs(64, 62), Some(list(&c))); } }
+            _ => { if let Some(c) = guard(|| b.build::<i16>()) { out.emit(&lhs(16, 14), Some(list(&c))); } }
+        }
+    }
 }
